@@ -482,6 +482,19 @@ func runC10(p *an.Prog, r *an.Run, tier string) {
 	r.Floor("id-counter-accesses", nID, 1)
 	r.Check(len(bad) == 0, "atomic-counter", "jsonrpc2.Client.id", token.NoPos, "request ids come from sync/atomic only", "%s", strings.Join(bad, "; "))
 
+	// ---- atomic-rmw: an update computed from an atomically loaded value and written back with an atomic store is two
+	// operations, not one: two callers can load the same value (every access is atomic and the race detector is silent,
+	// yet an increment is lost / an id is handed out twice)
+	rmw, nAtomic := splitAtomicRMW(p)
+	r.Floor("atomic-sites", nAtomic, 1)
+	r.Check(len(rmw) == 0, "atomic-rmw", "repo", token.NoPos, "no load/compute/store sequence on an atomic variable outside a lock", "%s", strings.Join(rmw, "; "))
+
+	// ---- pairing: a keep-alive's credits and its debit are applied together or not at all on every path (shared with
+	// C01/C02): an early return between them is exactly what a transaction conflict under concurrency produces
+	if tr := p.Method("pool/balance", "payPerInterval", "OnUpdate"); tr != nil {
+		checkPairing(p, r, tr, false)
+	}
+
 	checkOneTxn(p, r, "one-txn")
 
 	// ---- no-shared-bigint
@@ -492,6 +505,7 @@ func runC10(p *an.Prog, r *an.Run, tier string) {
 	}
 	r.Floor("bigint-mutations", nMut, 10)
 	r.Check(len(bad) == 0, "no-shared-bigint", "repo", token.NoPos, "no in-place big.Int mutation of shallow copies of shared balances", "%s", strings.Join(bad, "; "))
+	checkBigIntOwnership(p, r)
 
 	checkAliasEscapesLock(p, r, "alias-escapes-lock", func(fn *ssa.Function) bool { return true })
 
@@ -1008,4 +1022,58 @@ func checkAliasEscapesLock(p *an.Prog, r *an.Run, rule string, want func(*ssa.Fu
 	}
 	r.Note("buffer-alias sites examined: %d", n)
 	r.Check(len(bad) == 0, rule, "repo", token.NoPos, "no alias of a lock-protected buffer outlives the lock", "%s", strings.Join(dedup(bad), "; "))
+}
+
+// splitAtomicRMW: atomic.StoreT(addr, v) where v derives from atomic.LoadT of the same address in the same function,
+// with no mutex held at the store. Returns the complaints and the number of sync/atomic call sites seen.
+func splitAtomicRMW(p *an.Prog) (out []string, n int) {
+	isAtomic := func(c ssa.CallInstruction, prefix string) bool {
+		f := an.CallObj(c)
+		return f != nil && f.Pkg() != nil && f.Pkg().Path() == "sync/atomic" && strings.HasPrefix(f.Name(), prefix)
+	}
+	for _, fn := range p.Repo {
+		if p.IsTestFunc(fn) {
+			continue
+		}
+		var loads, stores []ssa.CallInstruction
+		for _, c := range an.Calls(fn, false) {
+			if f := an.CallObj(c); f != nil && f.Pkg() != nil && f.Pkg().Path() == "sync/atomic" {
+				n++
+			}
+			if isAtomic(c, "Load") && len(c.Common().Args) == 1 {
+				loads = append(loads, c)
+			}
+			if isAtomic(c, "Store") && len(c.Common().Args) == 2 {
+				stores = append(stores, c)
+			}
+		}
+		if len(loads) == 0 || len(stores) == 0 {
+			continue
+		}
+		li := an.Locksets(fn, nil)
+		for _, st := range stores {
+			d := p.Derives(0, st.Common().Args[1])
+			for _, ld := range loads {
+				lv, ok := ld.(ssa.Value)
+				if !ok || !d.HasValue(lv) {
+					continue
+				}
+				r1, p1 := an.RootPath(ld.Common().Args[0])
+				r2, p2 := an.RootPath(st.Common().Args[0])
+				if !sameObject(r1, r2) || p1 != p2 {
+					continue
+				}
+				held := false
+				for _, h := range li.Before[st.(ssa.Instruction)] {
+					if h {
+						held = true
+					}
+				}
+				if !held {
+					out = append(out, an.FuncName(fn)+" stores at "+p.Pos(st.Pos())+" a value computed from the atomic load at "+p.Pos(ld.Pos())+" of the same variable: the update is not atomic, concurrent callers obtain the same value (use atomic.Add / CompareAndSwap)")
+				}
+			}
+		}
+	}
+	return out, n
 }
